@@ -105,8 +105,11 @@ def script_property(run, gen, relevant, variants_quick=("sse2-debug",), variants
     if not reported and ((not cs["ok"]) or tie_f or build_problem or not okd):
         # the proof or the tie is broken: search for a concrete failing input
         found = []
+        t_search = time.time()
         if okd and exes:
             for r in range(4 if run.tier == "quick" else 16):
+                if time.time() - t_search > (600 if run.tier == "quick" else 2400):
+                    break            # the widened search has a wall-clock budget
                 for v, exe in exes.items():
                     text = gen("thorough", run.seed * 7919 + 100 + r, v)
                     fs, s, o, b, blocks = H.run_scripts(exe, driver, text, run.wdir, f"search_{v}_{r}", levels)
@@ -522,7 +525,7 @@ def check_c20(run):
         run, gen_serde_scripts,
         relevant=lambda f: f.kind == "CRASH" or (f.kind in ("A-FAIL", "H-FAIL", "B-FAIL") and op_in(f, ("serde_",))),
         rule="HashMap histories interleaved with serde operations through an in-memory data format: deserialisation from scripted inputs (0..40 pairs with many duplicate keys, claimed size hints none/0/1/../4096/4097/10^6/isize::MAX/usize::MAX, an input error injected at every position or none), round trips of maps with arbitrary histories, HashSet deserialize and deserialize_in_place; the deserialised table must equal bit for bit the extracted model (with_capacity(cautious(hint)) + inserts; on error the partial map is dropped and freed), contents must be last-value-per-key, the first allocation must be bounded regardless of the hint, no leak / double drop on the error paths",
-        nontrivial_keys=("serde_ok_path", "serde_error_path"))
+        nontrivial_keys=("serde_ok_path", "serde_error_path"), thorough_n=1)    # 8192-bucket tables: ~0.1 s per compared step
 
 def gen_par_scripts(tier, seed, variant):
     """maps (split trees, par_* / from_par_iter / par_eq), two-set histories (spar_*) and HashTable
